@@ -135,13 +135,22 @@ def _limit():
 
 def _run(cmd, timeout, cwd=None):
     t = time.time()
+    # own process group, so that a timeout also kills the solver processes cbmc has spawned (z3, cvc5)
+    p = subprocess.Popen(cmd, stdout=subprocess.PIPE, stderr=subprocess.STDOUT, cwd=cwd, preexec_fn=_limit,
+                         start_new_session=True)
     try:
-        p = subprocess.run(cmd, stdout=subprocess.PIPE, stderr=subprocess.STDOUT, timeout=timeout,
-                           cwd=cwd, preexec_fn=_limit)
-        return p.returncode, p.stdout.decode(errors="replace"), time.time() - t
-    except subprocess.TimeoutExpired as e:
-        out = (e.stdout or b"").decode(errors="replace")
-        return -999, out, time.time() - t
+        out, _ = p.communicate(timeout=timeout)
+        return p.returncode, out.decode(errors="replace"), time.time() - t
+    except subprocess.TimeoutExpired:
+        try:
+            os.killpg(p.pid, 9)
+        except Exception:
+            pass
+        try:
+            out, _ = p.communicate(timeout=10)
+        except Exception:
+            out = b""
+        return -999, (out or b"").decode(errors="replace"), time.time() - t
 
 
 SAFETY_FLAGS = ["--bounds-check", "--pointer-check", "--pointer-primitive-check"]
@@ -173,6 +182,18 @@ def run_job(ctx, job):
         return job
     binf = gb1
     if job.enforce or job.replace or job.loop_contracts or job.nondet_static:
+        if job.enforce or job.replace or job.loop_contracts:
+            # the C library models (memcpy, memset, ...) must be present before dfcc instruments the program,
+            # otherwise calls to them are turned into "undefined function should be unreachable"
+            gb0 = os.path.join(d, "a0.gb")
+            al = ["goto-instrument", "--add-library", gb1, gb0]
+            job.cmds.append(" ".join(al))
+            rc, out, s = _run(al, 300, cwd=d)
+            job.seconds += s
+            if rc != 0:
+                job.status, job.reason = "undecided", "goto-instrument --add-library failed: %s" % out[-800:]
+                return job
+            gb1 = gb0
         gi = ["goto-instrument"]
         if job.enforce or job.replace or job.loop_contracts:
             gi += ["--dfcc", job.entry]
@@ -194,7 +215,7 @@ def run_job(ctx, job):
             return job
         binf = gb2
     cb = ["cbmc", binf, "--json-ui", "--trace", "--function", job.entry] if False else \
-         ["cbmc", binf, "--json-ui", "--trace", "--drop-unused-functions"]
+         ["cbmc", binf, "--json-ui", "--trace", "--drop-unused-functions", "--slice-formula"]
     if job.big_endian:
         cb += ["--big-endian"]
     if job.safety:
